@@ -64,7 +64,8 @@ Step ==
        [] ev \in {"rd_b", "rd_e"} -> /\ readerIn' = (ev = "rd_b")
                                      /\ UNCHANGED <<scen, shape, vec, isRead, nonblock, before, total, lastResp, sawBlock, sawEof, nviol, inCall, wWaits>>
        [] ev = "quiet" ->
-            LET b1 == r.fl_nonblock # nonblock
+            \* (a reader that has not come back within the driver's patience is still inside its call)
+            LET b1 == r.reader_back /\ r.fl_nonblock # nonblock
             IN /\ (b1 => Viol("mode_changed", <<"both calls have returned", nonblock, r.fl_nonblock>>))
                /\ nviol' = nviol + Count(b1)
                /\ UNCHANGED <<scen, shape, vec, isRead, nonblock, before, total, lastResp, sawBlock, sawEof, inCall, wWaits, readerIn>>
